@@ -39,7 +39,11 @@ class Sess(SessionStream):
         return grammar_failures("C07", case["ops"], obs["fired"])
 
     def features(self, case, obs):
-        return SessionStream.features(self, case, obs) + ["protocol_following=%s" % protocol_following(case["ops"])]
+        f = SessionStream.features(self, case, obs)
+        pf = protocol_following(case["ops"])
+        if pf and obs["error"] is None and "attach-window+setStep" in f:
+            f.append("oracle-checked:attach-window+setStep")     # a step set inside a `with prepare_attachment` block
+        return f + ["protocol_following=%s" % pf]
 
 
 class Run(PropRunStream):
